@@ -58,7 +58,7 @@ func (s *Sim) opRegistry(op *Op) {
 		s.mapper(2)
 		startCount := s.registered()
 		defer func() {
-			if s.registered() > startCount && !s.fatal && !s.locked() {
+			if s.registered() > startCount && !s.fatal && !s.locked() && (s.Prof.Name == "C18" || s.Prof.Name == "default" || s.Prof.Name == "C20") {
 				s.useAfterRegistration(tmaxU, op)
 			}
 		}()
